@@ -465,6 +465,7 @@ type cfg = { mutable backend : backend; mutable gw : int; mutable tsize : z; mut
              mutable needs_drop : bool; mutable hashes : (string * z) list; mutable rule : string;
              mutable eqrule : string; mutable coll : string; mutable calign : z }
 
+let is_calldep (r : string) = String.length r >= 7 && String.sub r 0 7 = "calldep"
 let findings = ref 0
 let say fmt = Printf.ksprintf (fun s -> incr findings; print_endline s) fmt
 
@@ -633,7 +634,7 @@ let () =
          if chk_s <> "ok" then say "H-FAIL %s: harness check: %s" where chk_s;
          if dump_text preb <> dump_text postb then say "A-FAIL %s: the right-hand set changed" where;
          let key (e : kv) = e.k_id in
-         let lawful = cfg.rule <> "calldep" && cfg.eqrule = "lawful" in
+         let lawful = not (is_calldep cfg.rule) && cfg.eqrule = "lawful" in
          let hasher (e : kv) = hash_of None e.k_id in
          if do_b then begin
            incr b_checked;
@@ -803,7 +804,7 @@ let () =
          let refuse = List.exists (fun w -> w = ["refuse_nth"; "0"]) armws in
          let other_arm = List.exists (fun w -> match w with [] | ["-"] | ["hashpanic_key"; _] | ["refuse_nth"; "0"] -> false | _ -> true) armws in
          let zst = Z.eqb cfg.tsize Z0 in
-         let lawful = cfg.rule <> "calldep" && cfg.eqrule = "lawful" && not zst in
+         let lawful = not (is_calldep cfg.rule) && cfg.eqrule = "lawful" && not zst in
          let hf = hash_of None in
          let hasher (e : kv) = hf e.k_id in
          let ret = parse_tout ret_s in
@@ -921,7 +922,7 @@ let () =
            end;
            bump branch (if fails then "serde_error_path" else "serde_ok_path")
          end;
-         if opname = "getmanymut" && cfg.rule <> "calldep" && cfg.eqrule = "lawful" && not big then begin
+         if opname = "getmanymut" && not (is_calldep cfg.rule) && cfg.eqrule = "lawful" && not big then begin
            (* HashMap::get_many_mut = RawTable::get_many_mut with key-equality closures: the HashTable model *)
            let add = zs (List.nth opws 1) in
            let keys = List.map zs (List.filteri (fun j _ -> j >= 2) opws) in
@@ -1001,7 +1002,7 @@ let () =
          let refuse = List.exists (fun w -> w = ["refuse_nth"; "0"]) armws in
          let other_arm = List.exists (fun w -> match w with
            | [] | ["-"] | ["hashpanic_key"; _] | ["refuse_nth"; "0"] -> false | _ -> true) armws in
-         let lawful = cfg.rule <> "calldep" && cfg.eqrule = "lawful" in
+         let lawful = not (is_calldep cfg.rule) && cfg.eqrule = "lawful" in
          let hf = hash_of None in
          let hasher (e : kv) = hf e.k_id in
          let is_libpanic = (match strip_prefix "libpanic" ret_s with Some _ -> parse_out ret_s = None && opname <> "getmanymut" | None -> false) in
